@@ -354,6 +354,12 @@ func binop(op token.Token, t types.Type, x, y value) value {
 }
 
 func unop(instr *ssa.UnOp, x value) value {
+	if sp, ok := x.(*symElemPtr); ok {
+		if instr.Op == token.MUL {
+			return sp.load()
+		}
+		panic(engineAbort{"symbolic element pointer used by " + instr.Op.String()})
+	}
 	sx, ok := x.(sym)
 	if !ok {
 		return unopC(instr, x)
@@ -549,4 +555,184 @@ func renderBits(so ssort, kind string, b uint64) string {
 		return fmt.Sprint(int32(b))
 	}
 	return fmt.Sprint(b)
+}
+
+
+// symElemPtr is &seq[i] for a symbolic in-range index i over a short sequence of scalars. Loads
+// become an ite chain over the elements (no forking); stores concretise the index first.
+type symElemPtr struct {
+	elems []value
+	idx   *term
+	str   bool // elements are bytes of a string (read only)
+}
+
+const maxSymRead = 256
+const maxSymRuns = 20
+
+func trySymElemPtr(x, idx value, it types.Type) *symElemPtr {
+	s, ok := idx.(sym)
+	if !ok {
+		return nil
+	}
+	var elems []value
+	str := false
+	switch x := x.(type) {
+	case []value:
+		elems = x
+	case *value:
+		a, ok := (*x).(array)
+		if !ok {
+			return nil
+		}
+		elems = []value(a)
+	case array:
+		elems = []value(x)
+	case symstr:
+		elems = []value(x)
+		str = true
+	case string:
+		if len(x) > maxSymRead {
+			return nil
+		}
+		elems = []value(toSymstr(x))
+		str = true
+	default:
+		return nil
+	}
+	if len(elems) == 0 || len(elems) > maxSymRead {
+		return nil
+	}
+	// all elements must be scalars of one sort
+	var so ssort
+	for i, e := range elems {
+		var es ssort
+		switch v := e.(type) {
+		case sym:
+			es = v.t.sort
+		case bool:
+			es = sBool
+		case float64:
+			es = sF64
+		case int, int64, uint, uint64, uintptr:
+			es = sBV64
+		case int32, uint32:
+			es = sBV32
+		case int16, uint16:
+			es = sBV16
+		case int8, uint8:
+			es = sBV8
+		default:
+			return nil
+		}
+		if i == 0 {
+			so = es
+		} else if es != so {
+			return nil
+		}
+	}
+	// only tables with few runs of equal values are read symbolically (class tables, bit sets);
+	// tables with many distinct values (parser tables) are better concretised by forking
+	runs := 1
+	for i := 1; i < len(elems); i++ {
+		if elems[i] != elems[i-1] {
+			runs++
+			if runs > maxSymRuns {
+				return nil
+			}
+		}
+	}
+	// range check (forks to the Go run-time panic when out of range is feasible)
+	n := len(elems)
+	w := s.t.sort.width()
+	_, signed, _ := sortOf(it)
+	var inr *term
+	if w < 64 && uint64(n) >= uint64(1)<<uint(w) {
+		if signed {
+			inr = mk(oSLe, sBool, tBV(w, 0), s.t)
+		} else {
+			inr = mkBool(true)
+		}
+	} else {
+		inr = mk(oULt, sBool, s.t, tBV(w, uint64(n)))
+	}
+	if !explorer.decide(inr) {
+		rtPanic(fmt.Sprintf("runtime error: index out of range [symbolic] with length %d", n))
+	}
+	return &symElemPtr{elems: elems, idx: s.t, str: str}
+}
+
+func (sp *symElemPtr) load() value {
+	w := sp.idx.sort.width()
+	// group equal consecutive results to keep the chain short
+	first := sp.elems[len(sp.elems)-1]
+	acc := liftAny(first)
+	for i := len(sp.elems) - 2; i >= 0; i-- {
+		e := liftAny(sp.elems[i])
+		if e == acc {
+			continue
+		}
+		// elements i+1.. have been folded into acc; element i differs: idx <= i ? chain(i) : acc
+		// build precisely: ite(idx == i, e, acc) would lose grouping; use idx <= i with nested lower part later
+		acc = tIte(mk(oULe, sBool, sp.idx, tBV(w, uint64(i))), sp.lowChain(i), acc)
+		return lowerToElem(acc, first)
+	}
+	return lowerToElem(acc, first)
+}
+
+// lowChain builds the chain for indices 0..hi (inclusive).
+func (sp *symElemPtr) lowChain(hi int) *term {
+	w := sp.idx.sort.width()
+	acc := liftAny(sp.elems[hi])
+	for i := hi - 1; i >= 0; i-- {
+		e := liftAny(sp.elems[i])
+		if e == acc {
+			continue
+		}
+		return tIte(mk(oULe, sBool, sp.idx, tBV(w, uint64(i))), sp.lowChain(i), acc)
+	}
+	return acc
+}
+
+func lowerToElem(t *term, like value) value {
+	if !t.isConst() {
+		return sym{t}
+	}
+	u := t.bits
+	switch like.(type) {
+	case bool:
+		return u == 1
+	case float64:
+		return math.Float64frombits(u)
+	case int:
+		return int(u)
+	case int64:
+		return int64(u)
+	case uint:
+		return uint(u)
+	case uint64:
+		return u
+	case uintptr:
+		return uintptr(u)
+	case int32:
+		return int32(u)
+	case uint32:
+		return uint32(u)
+	case int16:
+		return int16(u)
+	case uint16:
+		return uint16(u)
+	case int8:
+		return int8(u)
+	case uint8:
+		return uint8(u)
+	}
+	return sym{t}
+}
+
+func (sp *symElemPtr) concretize() *value {
+	if sp.str {
+		panic(engineAbort{"store through a pointer into a string"})
+	}
+	i := int(explorer.concretize(sp.idx))
+	return &sp.elems[i]
 }
